@@ -16,6 +16,8 @@ import time
 ROOT = os.path.dirname(os.path.dirname(os.path.abspath(__file__)))
 SPEC = os.path.join(ROOT, "spec")
 BUILD = os.path.join(ROOT, ".build")
+# the repository under test: /repo; a lab copy (tools/lab.sh, seeded changes only) names its own worktree
+REPO = os.environ.get("VERIF_REPO", "/repo")
 TLCDIR = os.path.join(BUILD, "tlc")
 HARNESS_DIR = os.path.join(ROOT, "harness")
 HARNESS = os.path.join(BUILD, "target", "debug", "rnverif")
@@ -23,6 +25,14 @@ RNACOS_BIN = os.path.join(BUILD, "target", "debug", "rnacos")
 REPLAYS = os.path.join(ROOT, "replays")
 EVIDENCE = os.path.join(ROOT, "evidence")
 KNOWN = os.path.join(ROOT, "known_findings.json")
+
+
+class CodePanic(Exception):
+    """the code under test (a source file of the repository, not the harness) panicked while the harness drove it:
+    that is an outcome of the code - the driver reports it as a violation with the command line as replay"""
+    def __init__(self, where, message, cmd):
+        Exception.__init__(self, "%s: %s" % (where, message))
+        self.where, self.message, self.cmd = where, message, cmd
 
 
 class ToolError(Exception):
@@ -60,7 +70,7 @@ def build_harness(need_bin=False):
         sys.stderr.write(r.stdout[-6000:])
         raise ToolError("cargo build of harness failed")
     if need_bin:
-        r = subprocess.run(["cargo", "build", "--offline", "--manifest-path", "/repo/Cargo.toml",
+        r = subprocess.run(["cargo", "build", "--offline", "--manifest-path", os.path.join(REPO, "Cargo.toml"),
                             "--bin", "rnacos", "--features", "verif_hooks",
                             "--target-dir", os.path.join(BUILD, "target")],
                            cwd=HARNESS_DIR, env=env, stdout=subprocess.PIPE,
@@ -92,6 +102,13 @@ def harness(args, timeout=600, env=None, stdin=None):
                 pass
     if r.returncode != 0:
         sys.stderr.write(r.stderr[-4000:])
+        # only a panic on the driving (main) thread ends the process with status 101; the start-up race of a fresh
+        # auto-init node (raftapply.rs, `data_wrap.unwrap()`, see DESIGN 0.3 "observation") is not an outcome of a step
+        m = re.search(r"thread 'main'[^\n]*panicked at (\S+?):(\d+):\d+:\n(.*)", r.stderr) if r.returncode == 101 else None
+        if m and os.path.realpath(m.group(1)).startswith(os.path.realpath(REPO) + "/src/") \
+                and "called `Option::unwrap()` on a `None` value" not in m.group(3):
+            raise CodePanic("%s:%s" % (os.path.relpath(os.path.realpath(m.group(1)), os.path.realpath(REPO)), m.group(2)),
+                            m.group(3).strip()[:300], [str(a) for a in args])
         raise ToolError("harness exited %d: %s" % (r.returncode, " ".join(map(str, args))))
     return out
 
